@@ -1,0 +1,66 @@
+//go:build verif
+
+// Verification hooks (build tag "verif"): read-only views of unexported
+// constants and stream state for the /verif correspondence harness. This file
+// adds code only; nothing here is compiled without the tag.
+package stream
+
+const (
+	VerifCryptoStateMagic    = cryptoStateMagic
+	VerifCryptoStateVersion  = cryptoStateVersion
+	VerifCryptoStateFixedLen = cryptoStateFixedLen
+	VerifCsFlagEncrypted     = csFlagEncrypted
+	VerifCsFlagAuthenticated = csFlagAuthenticated
+	VerifCsFlagFinSendAAD    = csFlagFinishedSendAAD
+	VerifCsFlagFinRecvAAD    = csFlagFinishedRecvAAD
+	VerifCsFlagSendDgWritten = csFlagSendDigestWritten
+	VerifCsFlagRecvDgWritten = csFlagRecvDigestWritten
+)
+
+// VerifSnapshot is a copy of the crypto/framing state of a Stream.
+type VerifSnapshot struct {
+	HasKey            bool
+	Key               []byte
+	Encrypted         bool
+	Authenticated     bool
+	EncryptIV         [16]byte
+	DecryptIV         [16]byte
+	EncryptCounter    uint32
+	DecryptCounter    uint32
+	FinishedSendAAD   bool
+	FinishedRecvAAD   bool
+	SendDigestWritten bool
+	RecvDigestWritten bool
+	FinalSendDigest   []byte
+	FinalRecvDigest   []byte
+	SendBufferLen     int
+	SendEOM           bool
+	ReceiveBufferLen  int
+	BytesRead         int
+	InMessage         bool
+}
+
+// VerifSnapshot returns a copy of the stream's crypto and framing state.
+func (s *Stream) VerifSnapshot() VerifSnapshot {
+	return VerifSnapshot{
+		HasKey:            s.gcm != nil,
+		Key:               append([]byte(nil), s.encryptKey...),
+		Encrypted:         s.encrypted,
+		Authenticated:     s.authenticated,
+		EncryptIV:         s.encryptIV,
+		DecryptIV:         s.decryptIV,
+		EncryptCounter:    s.encryptCounter,
+		DecryptCounter:    s.decryptCounter,
+		FinishedSendAAD:   s.finishedSendAAD,
+		FinishedRecvAAD:   s.finishedRecvAAD,
+		SendDigestWritten: s.sendDigestWritten,
+		RecvDigestWritten: s.recvDigestWritten,
+		FinalSendDigest:   append([]byte(nil), s.finalSendDigest...),
+		FinalRecvDigest:   append([]byte(nil), s.finalRecvDigest...),
+		SendBufferLen:     len(s.sendBuffer),
+		SendEOM:           s.sendEOM,
+		ReceiveBufferLen:  len(s.receiveBuffer),
+		BytesRead:         s.bytesRead,
+		InMessage:         s.inMessage,
+	}
+}
